@@ -134,6 +134,75 @@ def run(ctx):
     jwe_part(ctx)
     unsafe_oct(ctx)
     key_confusion(ctx)
+    gates_after_proper_use(ctx)
+
+
+def gates_after_proper_use(ctx):
+    """The gate is a function of (algorithm, key), not of what the key - or a key with the same octets - was used for before:
+    each symmetric key is first used PROPERLY (the algorithm of its own size / a permitted operation), then offered to
+    every sibling algorithm that needs another size and to the operations its `key_ops` do not list, as the same object and
+    as a fresh object over the same octets; every such call must be refused exactly as on a fresh interpreter."""
+    from joserfc import jwe, jws
+    from joserfc.jwk import OctKey
+    rng = ctx.rng
+    fam = {"KW": [("A128KW", 16), ("A192KW", 24), ("A256KW", 32)], "GCMKW": [("A128GCMKW", 16), ("A192GCMKW", 24), ("A256GCMKW", 32)]}
+    allnames = E.ALL_NAMES
+    for fname, members in fam.items():
+        for alg_ok, size in members:
+            raw = rng.randbytes(size)
+            key = OctKey.import_key(raw)
+            tok = jwe.encrypt_compact({"alg": alg_ok, "enc": "A128GCM"}, b"proper use", key, algorithms=allnames)
+            assert jwe.decrypt_compact(tok, key, algorithms=allnames).plaintext == b"proper use"
+            for alg_bad, other in members:
+                if other == size:
+                    continue
+                for kobj, how in ((key, "same object"), (OctKey.import_key(raw), "fresh object, same octets")):
+                    for op in ("encrypt", "decrypt"):
+                        try:
+                            if op == "encrypt":
+                                jwe.encrypt_compact({"alg": alg_bad, "enc": "A128GCM"}, b"x", kobj, algorithms=allnames)
+                            else:
+                                # a token that really is alg_bad-wrapped under the first `other` octets cannot exist for this key; use the
+                                # proper token with its alg rewritten: the size gate must fire before anything is unwrapped
+                                jwe.decrypt_compact(E.rewrite_protected(tok, {"alg": alg_bad}), kobj, algorithms=allnames)
+                            out = "ok"
+                        except Exception as e:  # noqa: BLE001
+                            out = err_name(e)
+                        ctx.count("gate-after-proper-use", (alg_ok, alg_bad, how, op), True, f"{fname}:{op}:{out}")
+                        if out == "ok" or (op == "encrypt" and out != "InvalidKeyLengthError"):
+                            ctx.report(f"{alg_bad} {op} with a {size * 8}-bit key ({how}) after that key was used properly with {alg_ok}: {out} "
+                                       f"(a fresh interpreter refuses it with InvalidKeyLengthError)", {"alg": alg_bad, "first": alg_ok, "bits": size * 8, "how": how, "op": op},
+                                       f"after-proper-use:{fname}:{op}")
+    # key_ops: one permitted operation first, then an operation the key does not list
+    plans = [("oct16", {"key_ops": ["sign"]}, lambda k: jws.serialize_compact({"alg": "HS256"}, b"p", k, algorithms=J.ALL_ALGS),
+              [("jwe-unwrap", lambda k, t: jwe.decrypt_compact(t, k, algorithms=allnames)), ("jws-verify", lambda k, t: jws.deserialize_compact(t, k, algorithms=J.ALL_ALGS))]),
+             ("oct16", {"key_ops": ["verify"]}, None,
+              [("jws-sign", lambda k, t: jws.serialize_compact({"alg": "HS256"}, b"p", k, algorithms=J.ALL_ALGS)), ("jwe-wrap", lambda k, t: jwe.encrypt_compact({"alg": "A128KW", "enc": "A128GCM"}, b"x", k, algorithms=allnames))])]
+    plain = K.key("oct16")
+    kwtok = jwe.encrypt_compact({"alg": "A128KW", "enc": "A128GCM"}, b"top secret", plain, algorithms=allnames)
+    hstok = jws.serialize_compact({"alg": "HS256"}, b"p", plain, algorithms=J.ALL_ALGS)
+    for kn, params, first, laters in plans:
+        key = K.key(kn, **params)
+        if first is not None:
+            first(key)
+        else:
+            jws.deserialize_compact(hstok, key, algorithms=J.ALL_ALGS)
+        for label, f in laters:
+            tokarg = kwtok if label.startswith("jwe") else hstok
+            try:
+                f(key, tokarg)
+                out = "ok"
+            except Exception as e:  # noqa: BLE001
+                out = err_name(e)
+            try:
+                f(K.key(kn, **params), tokarg)
+                iso = "ok"
+            except Exception as e:  # noqa: BLE001
+                iso = err_name(e)
+            ctx.count("gate-after-proper-use", (kn, repr(params), label), True, f"key_ops:{label}:{out}")
+            if out != iso or out == "ok":
+                ctx.report(f"{label} with a key restricted to {params['key_ops']} after one permitted operation on the same key object: {out} "
+                           f"(the same call on a fresh key object: {iso})", {"key": kn, "params": params, "operation": label}, f"after-proper-use:key_ops:{label}")
 
 
 def jws_part(ctx):
